@@ -82,6 +82,10 @@ def tus(tier, seed):
     ENEST = {'sc': 'scaled_integer<{T}, power<{E}>>', 'sc(ov)': 'scaled_integer<overflow_integer<{T}, native_overflow_tag>, power<{E}>>',
              'sc(rd)': 'scaled_integer<rounding_integer<{T}, native_rounding_tag>, power<{E}>>',
              'sc(ov(rd))': 'scaled_integer<overflow_integer<rounding_integer<{T}, native_rounding_tag>, native_overflow_tag>, power<{E}>>',
+             'sc(rd(ov))': 'scaled_integer<rounding_integer<overflow_integer<{T}, native_overflow_tag>, native_rounding_tag>, power<{E}>>',
+             # other radixes (overflow_integer only: rounding_integer declares no scale<negative, radix != 2>)
+             'sc10(ov)': 'scaled_integer<overflow_integer<{T}, native_overflow_tag>, power<{E}, 10>>',
+             'sc3(ov)': 'scaled_integer<overflow_integer<{T}, native_overflow_tag>, power<{E}, 3>>',
              'int': '{T}'}
     epairs = [('sc', 'u8', -4, 'sc', 'i8', -4), ('sc', 'u8', 0, 'sc', 'i8', -8), ('sc', 'i8', 0, 'sc', 'i8', -4), ('sc', 'i16', -8, 'sc', 'u8', -3),
               ('sc', 'u16', -4, 'int', 'i8', 0), ('sc', 'u8', -2, 'sc', 'i8', -5), ('sc', 'i8', -3, 'sc', 'i8', -6), ('sc', 'i32', -16, 'sc', 'i32', -12),
@@ -91,7 +95,8 @@ def tus(tier, seed):
               ('sc(rd)', 'i16', -1, 'sc(rd)', 'u8', -8), ('sc(ov(rd))', 'i32', -16, 'sc(ov(rd))', 'i32', -12),
               ('sc(ov(rd))', 'u8', 2, 'sc(ov(rd))', 'i16', -3), ('sc(ov)', 'i32', -12, 'sc(ov)', 'u32', -16), ('sc(rd)', 'u32', 0, 'sc(rd)', 'i64', -30),
               ('sc(ov)', 'i64', -30, 'sc(ov)', 'i16', -2), ('sc(rd)', 'u16', -4, 'int', 'i32', 0), ('sc(ov(rd))', 'i8', -7, 'int', 'u8', 0),
-              ('sc(ov)', 'u16', 3, 'sc(ov)', 'u16', -12)]
+              ('sc(ov)', 'u16', 3, 'sc(ov)', 'u16', -12), ('sc(rd(ov))', 'i16', -1, 'sc(rd(ov))', 'i8', -6),
+              ('sc10(ov)', 'i16', -2, 'sc10(ov)', 'i8', -1), ('sc10(ov)', 'u8', 0, 'sc10(ov)', 'i32', -3), ('sc3(ov)', 'i32', -5, 'sc3(ov)', 'u16', 2)]
     rnd4 = random.Random(seed * 77 + 5)
     exps = [-12, -8, -4, -2, 0, 1, 3]
     for _ in range(3 if tier == 'quick' else 24):
@@ -99,7 +104,7 @@ def tus(tier, seed):
                        rnd4.choice(['sc', 'sc', 'int']), rnd4.choice(types4), rnd4.choice(exps)))
     for _ in range(4 if tier == 'quick' else 24):
         el = rnd4.choice(exps)
-        epairs.append((rnd4.choice(['sc(ov)', 'sc(rd)', 'sc(ov(rd))']), rnd4.choice(types4), el,
+        epairs.append((rnd4.choice(['sc(ov)', 'sc(rd)', 'sc(ov(rd))', 'sc(rd(ov))']), rnd4.choice(types4), el,
                        rnd4.choice(['sc', 'sc', 'sc', 'int']), rnd4.choice(types4), rnd4.choice([e for e in exps if e != el])))
     for i in range(0, len(epairs), 3):
         body = '#include "%s"\nint main(){ install(); Rng rng(seed_from_env()+2000+%d);\n' % (__file__.replace('.py', '.h'), i)
